@@ -180,7 +180,8 @@ static sexp_sint_t sexp_object_compare (sexp ctx, sexp a, sexp b, int depth) {
       return sexp_isymbol_compare(ctx, a, b);
     else
 #endif
-      res = (sexp_sint_t)a - (sexp_sint_t)b;
+      /* the difference of two fixnums can overflow */
+      res = ((sexp_sint_t)a > (sexp_sint_t)b) - ((sexp_sint_t)a < (sexp_sint_t)b);
   }
   return res;
 }
